@@ -422,6 +422,29 @@ def _visit_unit(ck):
     return unit
 
 
+def _module_expand(mod, expr, depth=8):
+    """`expr` with the module-level names that are bound once, at module level, replaced by their values (a module
+    constant built through named temporaries reads like the one-expression form)."""
+    import copy
+    counts = {}
+    for st in mod.tree.body:
+        for t in (st.targets if isinstance(st, ast.Assign) else [st.target] if isinstance(st, (ast.AnnAssign, ast.AugAssign)) else []):
+            for x in ast.walk(t):
+                if isinstance(x, ast.Name):
+                    counts[x.id] = counts.get(x.id, 0) + 1
+
+    class T(ast.NodeTransformer):
+        def __init__(self, d):
+            self.d = d
+
+        def visit_Name(self, n):
+            if isinstance(n.ctx, ast.Load) and counts.get(n.id) == 1 and n.id in mod.assigns and self.d > 0:
+                return T(self.d - 1).visit(copy.deepcopy(mod.assigns[n.id]))
+            return n
+
+    return T(depth).visit(copy.deepcopy(expr))
+
+
 def _reads_attr(fa, expr, attr, at=None):
     """Does the value of `expr` derive from `<something>.attr` / getattr(<something>, 'attr'[, default])?"""
     for n in _flow(fa, expr, at).values():
@@ -475,7 +498,8 @@ def check_hash_input_coverage(ck, R):
     ups = [c for c in h.calls("update")]
     feed = None
     for c in ups:
-        for d in [x for x in A.calls_in(c) if A.call_attr(x) == "dumps"]:
+        # json.dumps(<list>) may be passed directly or through a temporary
+        for d in [x for a_ in c.args for x in _flow(h, a_).values() if isinstance(x, ast.Call) and A.call_attr(x) == "dumps"]:
             if d.args and isinstance(d.args[0], ast.Name):
                 feed = d.args[0].id
     ck.need(feed is not None, "hash_if_code_object: no sha256.update(json.dumps(<list>)) found")
@@ -498,21 +522,31 @@ def check_hash_input_coverage(ck, R):
                 consumed.setdefault(n.attr, where)
             if isinstance(n, ast.Call) and A.call_attr(n) == "getattr" and len(n.args) >= 2 and A.norm(n.args[0]) == obj and A.const_str(n.args[1]):
                 consumed.setdefault(A.const_str(n.args[1]), where)
+    def roots(expr):
+        """the expression and the values of the temporaries it is built from (transitively)"""
+        out, seen, work = [expr], set(), [(expr, None)]
+        while work:
+            (e, at) = work.pop()
+            ats = [at] if at is not None else h.nodes(e)
+            for a_ in ats:
+                for n in ast.walk(e):
+                    if isinstance(n, ast.Name) and isinstance(n.ctx, ast.Load) and n.id != feed:
+                        for d in h.df.reaching(a_, n.id):
+                            if d.value is not None and d.kind in ("assign", "aug") and (d.node, d.name) not in seen:
+                                seen.add((d.node, d.name))
+                                out.append(d.value)
+                                work.append((d.value, d.node))
+        return out
+
     for s in h.stmts(ast.Assign):
         if any(isinstance(t, ast.Name) and t.id == feed for t in s.targets):
-            scan(s.value, s)
-    local_src = {}
-    for s in h.stmts(ast.Assign):
-        for t in s.targets:
-            if isinstance(t, ast.Name) and t.id != feed:
-                local_src[t.id] = s.value
+            for e in roots(s.value):
+                scan(e, s)
     for c in h.calls("append") + h.calls("extend"):
         if A.norm(A.call_recv(c)) == feed:
             for a in c.args:
-                scan(a, c)
-                for nm in A.names_in(a):
-                    if nm in local_src:
-                        scan(local_src[nm], c)
+                for e in roots(a):
+                    scan(e, c)
     for attr, why in CODE_RELEVANT.items():
         ok = attr in consumed
         if not ok and attr in narrowed:
@@ -1128,6 +1162,12 @@ def _stable_repr_function(ck, name):
                             if good:
                                 ok_any = True
                                 continue
+                        if isinstance(par, ast.Call) and isinstance(par.func, ast.Name) and par.func.id == "map" and len(par.args) == 2 and par.args[1] is n \
+                                and isinstance(par.args[0], ast.Name) and par.args[0].id == name:
+                            outer = pm.get(par)
+                            if isinstance(outer, ast.Call) and A.call_attr(outer) == "sorted" and outer.args and outer.args[0] is par and not outer.keywords:
+                                ok_any = True
+                                continue
                         return False
             # no fallback path that iterates in raw order (e.g. except TypeError: list(o))
             if any(isinstance(n, ast.Try) for st in i.body for n in ast.walk(st)):
@@ -1161,6 +1201,7 @@ def check_determinism_taint(ck, R):
     cfgm = ck.repo.module("configuration")
     env = cfgm.assigns.get("ENVIRONMENT_HASH_BYTES")
     ck.need(env is not None, "configuration.ENVIRONMENT_HASH_BYTES not found")
+    env = _module_expand(cfgm, env)
     dumps = [c for c in ast.walk(env) if isinstance(c, ast.Call) and A.call_attr(c) == "dumps"]
     oke = len(dumps) == 1 and A.norm(A.kwarg(dumps[0], "sort_keys")) == "True" and not any(
         isinstance(c, ast.Call) and A.call_attr(c) in NONDETERMINISTIC_CALLS | {"platform", "version_info", "getcwd", "gethostname"} for c in ast.walk(env))
@@ -1247,15 +1288,23 @@ def check_determinism_taint(ck, R):
     fnm = ck.repo.try_func(CH + ".NonMementoFunctionHashRule._function_name")
     if fnm is not None:
         f3 = FA(ck, fnm)
-        appends = [s_ for s_ in f3.stmts(ast.AugAssign) if "symbol" in A.names_in(s_.value)]
-        okm = False
+        # decided on PATH CONDITIONS: the statements that put the symbol into the name are executed whenever the
+        # qualified name carries one of the two markers (whatever the spelling of the test; unconditionally is fine too)
+        sym = f3.fi.params[1] if len(f3.fi.params) > 1 else "symbol"
+        appends = [s_ for s_ in f3.stmts((ast.AugAssign, ast.Assign, ast.Return)) if getattr(s_, "value", None) is not None and sym in A.names_in(s_.value) and f3.nodes(s_)]
+        have = set()
         for s_ in appends:
-            g = f3.enclosing(s_, ast.If)
-            if g is None:
-                okm = True
-            else:
-                marks = set(A.strings_in(g.test))
-                okm = {"<lambda>", "<locals>"} <= marks
+            have |= f3.conditions(s_) or set()
+        qn = None
+        for x in A.walk_body(f3.node):
+            if isinstance(x, ast.Attribute) and x.attr == "__qualname__":
+                qn = A.norm(x)
+        okm = False
+        if appends and qn is not None:
+            from .keys import dnf_compare
+            want = {frozenset({("'<lambda>' in " + qn, True)}), frozenset({("'<locals>' in " + qn, True)})}
+            r_ = dnf_compare(want, have)
+            okm = bool(r_) and r_[0]
         ck.ob(R, f3.key(None, "non-unique-qualnames"), okm, "the symbol is appended for every function whose qualified name is not unique (<lambda>, <locals>)" if okm else
               "the symbol is appended to the rule key only for some non-unique qualified names: two closures made by one factory (or two lambdas) "
               "used by one function still share a key, so the version depends on the hash seed", f3.where())
